@@ -245,6 +245,8 @@ func main() {
 	factsServer()
 	factsMain()
 	factsLocks()
+	factsLoops()
+	factsUpstream()
 
 	out.WriteString("\nend Pike.Facts\n")
 	if outPath == "" {
